@@ -408,3 +408,59 @@ Example C40_hls_example_queue :
      end.
 Proof. split; [exact C40_HlsLoop.a1_run|exact C40_HlsLoop.a1_with_queue]. Qed.
 
+
+(* ---- HLS muxer level (Model/C40_HlsMux.v, module HM): the muxer's own goroutine - initialize / runInner / run of
+   internal/servers/hls/muxer.go, as one list of lock / touch instructions per event (AddReader error, first instance
+   created or not, instance failure, re-creation, session clean-up, activity timer, context) and per muxer kind
+   (client-requested / always remux) - with API readers, session writers and Server.Close() on the same
+   sync.RWMutex.  Any number of users, any event history, all interleavings. ------------------------------------- *)
+Require MTX.Model.C40_HlsMux MTX.Proofs.C40_HlsMux.
+Module HM := MTX.Model.C40_HlsMux.HM.
+
+(* every exit path of runInner releases the mutex (whatever the event and the muxer kind, the loaded code is
+   well-typed from "nothing held" to "nothing held"), the discipline holds in every reachable state, and therefore
+   every reachable state is quiescent - every call has returned; the muxer is gone, or waits in its select and
+   nobody has cancelled its context; after Server.Close() it IS gone - or some goroutine can move *)
+Theorem C40_mux_every_operation_completes : forall s,
+  HM.reachable HM.Code s ->
+  HM.inv s = true
+  /\ (HM.quiescentb s = true \/ exists l s', HM.internal l = true /\ HM.step HM.Code s l = Some s')
+  /\ (HM.quiescentb s = true -> HM.cancelled s = true -> HM.gone s = true)
+  /\ (HM.quiescentb s = true -> forall c, In c (HM.cls s) -> HM.c_code c = []).
+Proof.
+  intros s Hr; pose proof (C40_HlsMux.mux_inv_reachable s Hr) as Hi; split; auto; split; [|split].
+  - destruct (HM.stuckb HM.Code s) eqn:E.
+    + left; apply C40_HlsMux.mux_progress; auto.
+    + right; apply C40_HlsMux.not_stuck_step; auto.
+  - apply C40_HlsMux.quiescent_closed_gone.
+  - intros Hq c Hin; unfold HM.quiescentb in Hq; apply andb_true_iff in Hq; destruct Hq as [Hq _].
+    rewrite forallb_forall in Hq; specialize (Hq c Hin); destruct (HM.c_code c); auto; discriminate.
+Qed.
+Print Assumptions C40_mux_every_operation_completes.
+
+Theorem C40_mux_exit_paths_release : forall k e,
+  HM.wfc HM.MN (if HM.is_init e then HM.ILock :: fst (HM.load HM.Code k e) else fst (HM.load HM.Code k e)) = true.
+Proof. exact C40_HlsMux.load_wf. Qed.
+Print Assumptions C40_mux_exit_paths_release.
+
+(* every internal step costs one unit of the measure, in every state of every variant: no schedule is infinite *)
+Theorem C40_mux_every_schedule_finite : forall v s l s',
+  HM.internal l = true -> HM.step v s l = Some s' -> HM.measure s' < HM.measure s.
+Proof. exact C40_HlsMux.mux_measure_decreases. Qed.
+Print Assumptions C40_mux_every_schedule_finite.
+
+(* refuted: a variant in which ONE exit path leaves with the mutex held (instance failure of a client-requested muxer:
+   the two critical sections merged with the early return inside; AddReader error; creation error; session
+   clean-up) reaches a state where nothing can move, the mutex is held, the muxer is not gone, an API request and
+   Server.Close() wait for ever; the same schedules on the pinned code do not *)
+Theorem C40_mux_leaked_lock_refuted :
+  C40_HlsMux.stuck_not_quiescent HM.LeakCrash C40_HlsMux.sched_crash = true
+  /\ C40_HlsMux.stuck_not_quiescent HM.LeakAddErr C40_HlsMux.sched_adderr = true
+  /\ C40_HlsMux.stuck_not_quiescent HM.LeakCreateErr C40_HlsMux.sched_createerr = true
+  /\ C40_HlsMux.stuck_not_quiescent HM.LeakCleanup C40_HlsMux.sched_cleanup = true
+  /\ C40_HlsMux.stuck_not_quiescent HM.Code C40_HlsMux.sched_crash = false
+  /\ C40_HlsMux.stuck_not_quiescent HM.Code C40_HlsMux.sched_adderr = false
+  /\ C40_HlsMux.stuck_not_quiescent HM.Code C40_HlsMux.sched_createerr = false
+  /\ C40_HlsMux.stuck_not_quiescent HM.Code C40_HlsMux.sched_cleanup = false.
+Proof. exact C40_HlsMux.mux_leaks_refuted. Qed.
+Print Assumptions C40_mux_leaked_lock_refuted.
